@@ -857,11 +857,12 @@ void eval_instruction (const char *p) {
             s = fp + EXTRACT_UCHAR (pc++);
             if (s->type == T_NUMBER)
               {
-                i = (int)s->u.number--;
+                i = (s->u.number-- != 0);
               }
             else if (s->type == T_REAL)
               {
-                i = (int)s->u.real--;
+                s->u.real--;
+                i = 1;		/* as in every other branch: only the integer 0 is false */
               }
             else
               {
